@@ -179,7 +179,7 @@ var alphaHTML = engine.Atoms("<", ">", "/", "!", "?", "=", "\"", "'", "-", "[", 
 var alphaHTMLCore = engine.Atoms("<", ">", "/", "!", "=", "\"", "'", "-", " ", "\x00", "a", "script", "svg", "<!--", "-->",
 	"</", "{{", "}}", "<?", "?>", "\\", "title", "plaintext", "SCRIPT")
 
-var alphaXML = engine.Atoms("<", ">", "/", "?", "!", "=", "\"", "'", "-", "[", "]", " ", "\t", "\n", "\r", "\x00", "a", ":",
+var alphaXML = engine.Atoms("<", ">", "/", "?", "!", "=", "\"", "'", "-", "[", "]", " ", "\t", "\n", "\r", "\x00", "\f", "\x01", "a", ":",
 	"&", ";", "<!--", "-->", "<![CDATA[", "]]>", "<!DOCTYPE", "<?", "?>", "/>", "é", "\xc3")
 
 var alphaJSON = engine.Atoms("{", "}", "[", "]", ",", ":", "\"", "\\", "/", "-", "+", ".", "0", "1", "9", "e", "E", "a", "u", "t",
